@@ -40,9 +40,10 @@ TRANSLATORS = [("rs2lean.py", "RS2LEAN_OUT", "Builders.lean"), ("rs2lean_guards.
                ("rs2lean_sched.py", "RS2LEAN_SCHED_OUT", "Schedule.lean"),
                ("rs2lean_tables.py", "RS2LEAN_TABLES_OUT", "Tables.lean"),
                ("rs2lean_stats.py", "RS2LEAN_STATS_OUT", "Stats.lean"),
-               ("rs2lean_adts.py", "RS2LEAN_ADTS_OUT", "Adts.lean")]
+               ("rs2lean_adts.py", "RS2LEAN_ADTS_OUT", "Adts.lean"),
+               ("rs2lean_writer.py", "RS2LEAN_WRITER_OUT", "Writer.lean")]
 PROOFS = ["Muxide.Props.C19Generated", "Muxide.Props.C19GeneratedTables", "Muxide.Props.C04Generated", "Muxide.Props.C07Generated",
-          "Muxide.Props.C14Generated", "Muxide.Props.C10Generated", "Muxide.Props.C11Generated", "Muxide.Props.C15Generated", "Muxide.Props.C03Generated", "Muxide.Props.C06Generated", "Muxide.Props.C14GeneratedAdts"]
+          "Muxide.Props.C14Generated", "Muxide.Props.C10Generated", "Muxide.Props.C11Generated", "Muxide.Props.C15Generated", "Muxide.Props.C03Generated", "Muxide.Props.C06Generated", "Muxide.Props.C14GeneratedAdts", "Muxide.Props.C05Generated"]
 
 
 def targets():
@@ -52,7 +53,8 @@ def targets():
     t += [("src/codec/h265.rs", n) for n in ("hevc_nal_type", "is_hevc_keyframe_nal_type", "extract_hevc_config", "is_hevc_keyframe", "hevc_annexb_to_hvcc")]
     t += [("src/fragmented.rs", n) for n in ("current_fragment_duration_ms", "ready_to_flush", "write_video", "flush_segment",
                                              "build_trun", "build_traf", "build_moof_with_offset", "build_moof", "build_media_segment")]
-    t += [("src/muxer/mp4.rs", "compute_interleave_schedule"), ("src/muxer/mp4.rs", "from_samples"), ("src/muxer/mp4.rs", "max_end_pts"), ("src/muxer/mp4.rs", "adts_to_raw")]
+    t += [("src/muxer/mp4.rs", "compute_interleave_schedule"), ("src/muxer/mp4.rs", "from_samples"), ("src/muxer/mp4.rs", "max_end_pts"), ("src/muxer/mp4.rs", "adts_to_raw"),
+          ("src/muxer/mp4.rs", "write_video_sample_with_dts"), ("src/muxer/mp4.rs", "write_audio_sample")]
     return t
 
 
